@@ -2,6 +2,7 @@ CONSTANTS
  Scenario = 5
  InitTtl = "some"
  Variant = "code"
+ GetdelBlocking = TRUE
  OwnerSwitch = "sync"
  Ops <- MCOps
  Kind <- MCKind
